@@ -15,6 +15,7 @@
 package ggql
 
 import (
+	"math"
 	"strconv"
 )
 
@@ -43,17 +44,29 @@ func (*int64Scalar) CoerceIn(v interface{}) (interface{}, error) {
 	case int64:
 		// ok as is
 	case int32:
-		v = tv
+		v = int64(tv)
 	case string:
 		var i int64
 		if i, err = strconv.ParseInt(tv, 10, 64); err == nil {
 			v = i
+		} else {
+			v = nil
 		}
 	default:
 		err = newCoerceErr(v, "Int64")
 		v = nil
 	}
 	return v, err
+}
+
+// floatToInt64 converts a float in the range of an int64 to an int64
+// otherwise a coerce error is returned.
+func floatToInt64(f float64, v interface{}) (interface{}, error) {
+	// -2^63 and 2^63 are exact as float64. NaN fails the range check.
+	if !(-(1<<63) <= f && f < 1<<63) {
+		return nil, newCoerceErr(v, "Int64")
+	}
+	return int64(f), nil
 }
 
 // CoerceOut coerces a result value into a type for the scalar.
@@ -63,9 +76,9 @@ func (t *int64Scalar) CoerceOut(v interface{}) (interface{}, error) {
 	case nil:
 	// remains nil
 	case float32:
-		v = int64(tv)
+		v, err = floatToInt64(float64(tv), v)
 	case float64:
-		v = int64(tv)
+		v, err = floatToInt64(tv, v)
 	case int:
 		v = int64(tv)
 	case int8:
@@ -77,7 +90,11 @@ func (t *int64Scalar) CoerceOut(v interface{}) (interface{}, error) {
 	case int64:
 		// ok as is
 	case uint:
-		v = int64(tv)
+		if math.MaxInt64 < uint64(tv) {
+			v, err = nil, newCoerceErr(tv, "Int64")
+		} else {
+			v = int64(tv)
+		}
 	case uint8:
 		v = int64(tv)
 	case uint16:
@@ -85,11 +102,17 @@ func (t *int64Scalar) CoerceOut(v interface{}) (interface{}, error) {
 	case uint32:
 		v = int64(tv)
 	case uint64:
-		v = int64(tv)
+		if math.MaxInt64 < tv {
+			v, err = nil, newCoerceErr(tv, "Int64")
+		} else {
+			v = int64(tv)
+		}
 	case string:
 		var i int64
 		if i, err = strconv.ParseInt(tv, 10, 64); err == nil {
 			v = i
+		} else {
+			v = nil
 		}
 	default:
 		err = newCoerceErr(tv, "Int64")
